@@ -495,6 +495,12 @@ func c07Cases(quick bool) []c07Case {
 			}
 		}
 	}
+	// one representative per kind first (ample gas and balance, value 1, right
+	// nonce), so that a run cut short by its deadline has still seen every program
+	core := func(c *c07Case) bool {
+		return c.LimSym == "ample" && c.BalSym == "ample" && c.ValSym == "1" && c.NonceOff == 0 && c.Price == 2500
+	}
+	sort.SliceStable(out, func(i, j int) bool { return core(&out[i]) && !core(&out[j]) })
 	return out
 }
 
